@@ -344,7 +344,13 @@ def DIAG(p0=None, p1=None, p2=None):
     return dict(source=SRC, options=OPTS, compiled=c, reference=r, same_result=(c[:2] == r[:2]),
                 trace_is_permutation=(sorted(map(str, c[2])) == sorted(map(str, r[2]))))
 '''
-    body = '''    a = run_compiled(p0, p1, p2)
+    if check_trace == "multiset":
+        # map / set literals: the property prescribes no order among their elements, only that each runs exactly once
+        body = '''    a = run_compiled(p0, p1, p2)
+    b = run_reference(p0, p1, p2)
+    return a[:2] == b[:2] and sorted(map(str, a[2])) == sorted(map(str, b[2]))'''
+    else:
+        body = '''    a = run_compiled(p0, p1, p2)
     b = run_reference(p0, p1, p2)
     return a == b''' if check_trace else '''    a = run_compiled(p0, p1, p2)
     b = run_reference(p0, p1, p2)
